@@ -21,6 +21,9 @@ func (v *VFile) NewStack(name string, depth int) *StackCounter {
 	return &StackCounter{name: name, depth: depth, file: &v.F}
 }
 func (v *VFile) Rotate1() time.Time { return v.F.rotate1() }
+
+// Rotate is file.rotate: rotate1 plus arming the timer for the next rotation.
+func (v *VFile) Rotate() { v.F.rotate() }
 func (v *VFile) Err() error {
 	v.F.mu.Lock()
 	defer v.F.mu.Unlock()
